@@ -3423,8 +3423,12 @@ static void mz_zip_time_t_to_dos_time(MZ_TIME_T time, mz_uint16 * pDOS_time, mz_
 		return;
 	}
 
-#else
+#elif (defined(_WIN32) || defined(__WIN32__))
 	struct tm * tm = localtime(&time);
+#else
+	/* localtime() hands out a pointer to static storage shared by all threads */
+	struct tm tm_struct;
+	struct tm * tm = localtime_r(&time, &tm_struct);
 #endif /* #ifdef _MSC_VER */
 
 	*pDOS_time = (mz_uint16)(((tm->tm_hour) << 11) + ((tm->tm_min) << 5) + ((tm->tm_sec) >> 1));
